@@ -6,6 +6,8 @@ Model of pydoctor/visitor.py: `Visitor.visit`, `Visitor.depart`, `Visitor.walkab
 A tree node carries its identity and the pruning action the *main* visitor's
 `visit_*` method raises for it.  Exceptions are explicit: the second component of
 `walkabout`'s result says whether `SkipSiblings` propagates to the caller.
+`walkaboutG` is the same code with two more inputs: the pruning exception the main visitor's
+`depart_*` raises per node, and the nodes a `visit_*` method visits itself (`generic_visit`).
 
 Import-free, executable.
 -/
